@@ -19,5 +19,5 @@ echo "demo without change: $base"
 echo "suite with change:   $suite"
 echo "demo with change:    $demo"
 mkdir -p $out
-/verif/bin/mqverify -property all -repo $w -verif /verif -outdir $out -nocanary 2>&1 | grep -E "^VIOLATION|^  (VIOLATED|UNDECIDED)" | cut -c1-330
+/verif/bin/mqverify -property all -repo $w -verif /verif -outdir $out -nocanary 2>&1 | grep -E "^VIOLATION|^  (VIOLATED|UNDECIDED)" | cut -c1-330 | awk '/^VIOLATION/ {print; n=0; next} { n++; if (n<=3) print; else if (n==4) print "  ..." }' 
 cd /; git -C /repo worktree remove --force $w; rm -rf $w $out
